@@ -795,6 +795,77 @@ func (x *btCtx) checkScanEntries(rel string) {
 				}
 			}
 		}
+		// a path that returns without scanning a non-empty tree must be justified by what it established: the pivot
+		// lies beyond the extreme item in scan direction — strictly beyond for an inclusive scan
+		for _, t := range traces {
+			if !ok || t.End != EndReturn {
+				continue
+			}
+			scanned := false
+			for _, e := range t.Events {
+				if e.Kind == EvCall && e.Callee != nil && e.Callee.Name() == "iterate" {
+					scanned = true
+				}
+			}
+			if scanned {
+				continue
+			}
+			facts := t.factsBefore(len(t.Events))
+			if hasFact(facts, func(f Fact) bool {
+				_, isRoot := isInitOfField(f.X, rootF)
+				return isRoot && f.Op == token.EQL && f.Y.isNilConst()
+			}) {
+				continue
+			}
+			justified := false
+			if en.start == "p0" && en.stop == "nil" {
+				pivot := t.Params[1]
+				extreme := "max"
+				if en.dir < 0 {
+					extreme = "min"
+				}
+				var ext *Sym
+				for _, e := range t.Events {
+					if e.Kind == EvCall && e.Callee != nil && e.Callee.Name() == extreme && len(e.Args) == 1 && e.Res != nil {
+						if _, isRoot := isInitOfField(e.Args[0], rootF); isRoot {
+							ext = e.Res
+						}
+					}
+				}
+				if ext != nil {
+					if hasFact(facts, func(f Fact) bool { return f.X.Key() == ext.Key() && f.Op == token.EQL && f.Y.isNilConst() }) {
+						justified = true
+					}
+					for _, e := range t.Events {
+						if e.Kind != EvCall || e.Method == nil || e.Method.Name() != "Less" || len(e.Args) != 2 || e.Res == nil {
+							continue
+						}
+						v, known := condFact(facts, e.Res)
+						if !known {
+							continue
+						}
+						a, b := e.Args[0].Key(), e.Args[1].Key()
+						// ascending: nothing lies after the pivot when !(pivot < max) [exclusive], max < pivot [inclusive];
+						// descending: !(min < pivot) [exclusive], pivot < min [inclusive]
+						beyond, notBefore := false, false
+						if en.dir > 0 {
+							beyond = a == ext.Key() && b == pivot.Key() && v
+							notBefore = a == pivot.Key() && b == ext.Key() && !v
+						} else {
+							beyond = a == pivot.Key() && b == ext.Key() && v
+							notBefore = a == ext.Key() && b == pivot.Key() && !v
+						}
+						if beyond || (notBefore && !en.includeSt) {
+							justified = true
+						}
+					}
+				}
+			}
+			if !justified {
+				ok = false
+				c.violated("C03.scan-entry", name, fn.Pos(), en.name+" returns without running the scan on a non-empty tree, and the path has not established that no item can lie in the range (for an inclusive scan the pivot must be strictly beyond the extreme item): items of the range are not visited", c.witness(t, len(t.Events)-1)...)
+			}
+		}
 		if ok && n > 0 {
 			c.holds("C03.scan-entry", name, fn.Pos(), "")
 		} else if n == 0 {
